@@ -178,12 +178,13 @@ def run_once(T, config, chooser, script, size, mn):
                     finally:
                         closer_done[0] = True
                 sc.spawn("closer", closer)
-            sc.yield_point()
+            sc.soft_yield()
         for k in range(1, j + 1):
             gates[k] = True
         sc.quiesce()
         sc.yield_point(lambda: closer_done[0])
         if not closed:
+            LOG.append({"e": "Quiet"})      # everything released, nothing running, pool still open: no accepted job may be left waiting
             pool.close()
         sc.quiesce()
         p = pool_ref[0]
@@ -316,18 +317,18 @@ def run(ctx):
     if len(scripts) < 10:
         raise util.MachineryError("too few pool scripts")
     rng = random.Random(ctx.seed + 18)
-    if ctx.quick:
-        rng.shuffle(scripts)
-        scripts = scripts[:40]
-    else:
-        rng.shuffle(scripts)
-        scripts = scripts[:400]
+    rng.shuffle(scripts)
+    # scripts in which a submission can meet a finishing worker or a close are the interesting ones: keep those first
+    def interest(s):
+        return -(sum(1 for i in range(len(s) - 1) if s[i] == "release" and s[i + 1] == "submit") * 2 + ("close" in s) + s.count("submit"))
+    scripts.sort(key=interest)
+    scripts = scripts[:ctx.pick(14, 200)]
     sizes = [(1, 1), (2, 1), (2, 2)] if ctx.quick else [(1, 1), (2, 1), (2, 2), (3, 1), (3, 2)]
     # (3) drive the real pool under the scheduler
     traces = {}
     runs = 0
-    per_script_random = ctx.pick(6, 25)
-    dfs_limit = ctx.pick(8, 60)
+    per_script_random = ctx.pick(6, 30)
+    dfs_limit = ctx.pick(130, 400)      # bound 1: every single preemption point of the run (quick); bound 2 sampled breadth-first (thorough)
     for script in scripts:
         for (size, mn) in sizes:
             def once(ch):
